@@ -78,6 +78,23 @@ def _bearer_id(bearer: att.Bearer) -> str:
         return f'[0x{bearer.handle:04X}]'
 
 
+def _is_request(op_code: int) -> bool:
+    '''
+    Whether a PDU received with this op code must be answered: anything that is not
+    a command, a confirmation or a server-to-client PDU is a request, supported or not.
+    '''
+    return not (
+        op_code & 0x40
+        or op_code in att.ATT_RESPONSES
+        or op_code
+        in (
+            att.Opcode.ATT_HANDLE_VALUE_NOTIFICATION,
+            att.Opcode.ATT_HANDLE_VALUE_INDICATION,
+            att.Opcode.ATT_HANDLE_VALUE_CONFIRMATION,
+        )
+    )
+
+
 def _async_request_handler(handler):
     '''
     Run an async request handler in a task. Since the task outlives the call from
@@ -630,8 +647,8 @@ class Server(utils.EventEmitter):
                 raise
         else:
             # No specific handler registered
-            if att_pdu.op_code in att.ATT_REQUESTS:
-                # Invoke the generic handler
+            if _is_request(att_pdu.op_code):
+                # A request, supported or not: invoke the generic handler
                 self.on_att_request(bearer, att_pdu)
             else:
                 # Just ignore
